@@ -354,3 +354,5 @@ func rootsInAlloc(a ssa.Value) bool {
 	}
 	return false
 }
+
+func tokenAND() token.Token { return token.AND }
